@@ -9,7 +9,7 @@ The printer's choices are `Generated.printCfg`, extracted from /repo's source on
 `harness/translate_print.py`; both models are tied to /repo by `harness/props/c15.py`.
 
 FULL STATEMENT (DESIGN §4 C15) and what is proved here:
-  read_print, language preservation, postfix discipline, open bounds, party annotations,
+  read_print, language preservation, print stability, postfix discipline, open bounds, party annotations,
   F5 counterexample, literal_roundtrip (str, bytes)                         — PROVED below, all inputs
   regex_quote_roundtrip  (`Terminal.format_as_spec` for regex terminals: r'…', r"…", the `\x27`
                           rewriting, the bytes-regex `replace`)              — NOT proved: no model of
@@ -69,6 +69,16 @@ example : read 20 (print Generated.printCfg exNode) = some (norm exNode) := by r
 example : print Generated.printCfg exNode =
     [.lp, .nt "<a>" (some "s") (some "r"), .bar, .lit (.text [120]), .plus,
      .lp, .lit (.text [121]), .nt "<b>" none none, .rp, .repOpen 2, .rp, .star] := by decide +kernel
+
+/-- **Printing is stable**: for a node of the shape the front end itself builds (every alternative and
+    every sequence has at least two members) the node read back prints as exactly the same tokens —
+    `repr(parse(repr(g))) == repr(g)` -/
+theorem C15_print_stable (cap : Nat) (n : Node) (h : wf cap n = true) (hs : shaped n = true) :
+    ∃ n', read cap (print Generated.printCfg n) = some n' ∧
+      print Generated.printCfg n' = print Generated.printCfg n :=
+  ⟨norm n, C15_read_print cap n h, print_norm _ n hs⟩
+
+example : shaped exNode = true := by decide
 
 /-! ## 3. what survives -/
 
